@@ -40,4 +40,21 @@ theorem chan_frame (cfg : Cfg) (s s' : St) (l : Label) (ho : ∀ o, l ≠ .rxOut
 
 theorem held_afterNotify (ws : List Nat) : (afterNotify ws).held = none := by
   cases ws <;> rfl
+/-- … nor the retry counter of the batch it holds. -/
+theorem chan_frame_retry (cfg : Cfg) (s s' : St) (l : Label) (ho : ∀ o, l ≠ .rxOutcome o) (hb : l ≠ .rxBegin)
+    (hs : step cfg s l = some s') : s'.retryCur = s.retryCur := by
+  cases l
+  case send x =>
+    step_elim hs
+    unfold send
+    by_cases hc : s.pending.length ≥ cfg.cap <;> by_cases ho : s.isOpen <;> simp [hc, ho, truncate, push]
+  case trySend x =>
+    step_elim hs
+    unfold trySend
+    by_cases ho : s.isOpen <;> by_cases hc : s.pending.length < cfg.cap <;> simp [ho, hc, push]
+  case rxOutcome o => exact absurd rfl (ho o)
+  case rxBegin => exact absurd rfl hb
+  all_goals
+    step_elim hs
+    all_goals rfl
 end EmitModel.Batcher
